@@ -351,6 +351,11 @@ impl Database {
 
         drop(lookup);
         drop(file_manager_guard);
+        #[cfg(kahflane_turdb_verif)]
+        {
+            crate::verif::crash_point("commit.captured");
+            crate::verif::yield_point("commit.after_capture");
+        }
 
         if self.shared.group_commit_queue.is_enabled() {
             match self.shared.group_commit_queue.submit_and_wait(payload) {
@@ -368,6 +373,11 @@ impl Database {
                                 .fail_batch(&pending_commits, &e.to_string()),
                         }
                         result?;
+                        #[cfg(kahflane_turdb_verif)]
+                        {
+                            crate::verif::crash_point("commit.logged");
+                            crate::verif::yield_point("commit.after_log");
+                        }
                         self.sync_dirty_storages(dirty_table_ids)?;
                     }
                 }
